@@ -13,6 +13,13 @@ CLAIMED = {
          'Trusted: Lean kernel, Mathlib, the symbolic tracer (translate/trace.py, gen_c15.py); tm indexing glue is doubled while tracing; IEEE rounding outside the theorem.',
          'Lean 4 proof over a model regenerated from source by a symbolic-execution translator (SAT theorem + 1-D Helly), translator cross-checked by differential run',
          'DESIGN.md section 5 C15'),
+ 'C19': ('Machine-checked theorems (Lean 4) about an executable model of the Comms hub: no rule table ever holds a duplicate (invariant by '
+         'induction over every history), a received message produces exactly the sends/sink calls of the current rules (once each), a no-data '
+         'receive is silent, registration calls return true iff the rule set changed, each spin calls each source once. The model is tied to '
+         'the real class by an exhaustive + random differential run over operation histories; a direct property oracle on the real object supplies replays.',
+         'Trusted: Lean kernel, Mathlib, harness/c19.py (doubles, generators). Sockets only smoke-tested on loopback; callbacks that re-enter the hub are not modelled.',
+         'Lean 4 invariant/refinement proofs over a hand-written state-machine model + exhaustive/random correspondence with the real Comms class',
+         'DESIGN.md section 5 C19'),
 }
 NA_REASON = 'check not built yet in this round (work in progress; DESIGN.md section 8 gives the build order)'
 
